@@ -739,6 +739,17 @@ func init() {
 			if x.T == nil {
 				return Float{C: f(x.C)}
 			}
+			// IEEE round-to-integral and square root are SMT-LIB operations
+			switch name {
+			case "math.Floor":
+				return Float{T: &Term{S: "(fp.roundToIntegral RTN " + x.T.S + ")"}}
+			case "math.Ceil":
+				return Float{T: &Term{S: "(fp.roundToIntegral RTP " + x.T.S + ")"}}
+			case "math.Trunc":
+				return Float{T: &Term{S: "(fp.roundToIntegral RTZ " + x.T.S + ")"}}
+			case "math.Sqrt":
+				return Float{T: &Term{S: "(fp.sqrt RNE " + x.T.S + ")"}}
+			}
 			panic(inconclusive{name + " on symbolic float"})
 		}
 	}
